@@ -62,10 +62,14 @@ impl Value {
     /// Convert Value to FFI-safe FfiValue by expanding Symbols to Strings.
     ///
     /// Returns Err if the Value contains types that cannot cross FFI boundaries
-    /// (Closures, ExternalFn, Fixpoint, Store, ConstructorFn).
+    /// (ErrorV, Closures, ExternalFn, Fixpoint, Store, ConstructorFn).
     pub fn to_ffi_value(&self) -> Result<FfiValue, String> {
         match self {
-            Value::ErrorV(_) => Ok(FfiValue::ErrorV),
+            Value::ErrorV(_) => {
+                // The encoding has no payload for an error value: decoding would silently
+                // turn it into `Unit`, so it is refused like the other non-transferable kinds.
+                Err("Error values cannot be serialized across FFI boundaries".to_string())
+            }
             Value::Unit => Ok(FfiValue::Unit),
             Value::Number(n) => Ok(FfiValue::Number(*n)),
             Value::String(sym) => Ok(FfiValue::String(sym.as_str().to_string())),
